@@ -10,6 +10,7 @@ EXPLANATION = (
     "use); writer and reader of an entry derive the same directory and base names; a shelved reference loads the id it "
     "was built with; plus the canonicalisation clauses of C07 (a wrong binding merges distinct calls) and the digest "
     "clauses of C08. Collision resistance of md5 over pickle streams and __reduce__ of user classes are NOT decided."
+    ' A shelved reference hands out a freshly loaded value on every get(); partials are fingerprinted as themselves.'
 )
 ASSUMPTIONS = [
     "md5 over the pickle stream does not collide for distinct canonical mappings",
